@@ -6,8 +6,10 @@ import (
 	"context"
 	"fmt"
 	"math/rand/v2"
+	"runtime"
 	"strings"
 	"sync"
+	"sync/atomic"
 	"time"
 
 	am "github.com/pancsta/asyncmachine-go/pkg/machine"
@@ -51,6 +53,13 @@ func (eng) Cases(seed uint64, tier string) []core.CaseDesc {
 	}
 	for i := 0; i < nr; i++ {
 		cs = append(cs, core.CaseDesc{ID: fmt.Sprintf("race/%05d", i), Kind: "race", Seed: seed*2000003 + uint64(i)})
+	}
+	nt := 4
+	if tier == "thorough" {
+		nt = 60
+	}
+	for i := 0; i < nt; i++ {
+		cs = append(cs, core.CaseDesc{ID: fmt.Sprintf("torn/%03d", i), Kind: "torn", Seed: seed*8000009 + uint64(i)})
 	}
 	for i := 0; i < 14; i++ {
 		cs = append(cs, core.CaseDesc{ID: fmt.Sprintf("directed/%02d", i), Kind: "directed", Seed: uint64(i)})
@@ -428,6 +437,54 @@ func (w *world) subscribe(r *rand.Rand, step int, kinds []string) *sub {
 
 var allKinds = []string{"when", "whennot", "whentime", "whenticks", "nextactive", "whenquery", "whenargs", "statectx",
 	"when", "whennot", "whentime"}
+
+// runTorn: WhenNextActive / WhenTicks are called while exactly one transition
+// (a deactivation of the active state) runs concurrently; then the state is
+// activated once more. Whichever tick the call saw (before or after the
+// deactivation), the next activation is the one it waits for: the channel has
+// to be closed now. A call that mixes two readings of the tick waits for a
+// later one.
+func runTorn(res *core.CaseResult, c core.CaseDesc) {
+	r := gen.NewRand(c.Seed, 61)
+	m := am.New(context.Background(), am.Schema{"A": {}}, &am.Opts{Id: "c06t", DontLogId: true, DontLogStackTrace: true})
+	defer m.Dispose()
+	for trial := 0; trial < 3000; trial++ {
+		if !m.Is1("A") {
+			m.Add1("A", nil)
+		}
+		t0 := m.Tick("A")
+		var start atomic.Bool
+		spin := r.IntN(400)
+		var wg sync.WaitGroup
+		wg.Add(1)
+		go func() {
+			defer wg.Done()
+			for !start.Load() {
+			}
+			for i := 0; i < spin; i++ {
+				_ = start.Load()
+			}
+			m.Remove1("A", nil)
+		}()
+		runtime.Gosched()
+		start.Store(true)
+		for i := 0; i < r.IntN(200); i++ {
+			_ = start.Load()
+		}
+		ch := m.WhenNextActive("A", nil)
+		wg.Wait()
+		m.Add1("A", nil)
+		res.Evals++
+		if !isClosed(ch) {
+			res.Violate("C06/lost/nextactive/torn-tick", fmt.Sprintf(
+				"trial %d: WhenNextActive(A) was called at tick %d or %d (one deactivation ran concurrently); A was then activated again (tick %d) and the channel is still open",
+				trial, t0, t0+1, m.Tick("A")), nil)
+			return
+		}
+	}
+	res.Key("torn", c.Seed)
+	res.Count("nextactive_calls_racing_one_transition", 3000)
+}
 
 func runSeq(res *core.CaseResult, c core.CaseDesc, kinds []string, noCtx bool) {
 	r := gen.NewRand(c.Seed, 6)
@@ -809,6 +866,8 @@ func (eng) Run(c core.CaseDesc, tier string) *core.CaseResult {
 		} else {
 			runRace(res, c)
 		}
+	case "torn":
+		runTorn(res, c)
 	case "directed":
 		runDirected(res, c)
 	}
